@@ -18,6 +18,8 @@ fn main() {
     let code = match (args.cmd.as_str(), args.sub.as_str()) {
         ("replay", "range") => props::range::replay(&args),
         ("drive", "range") => props::range::drive(&args),
+        ("replay", "ods") => props::ods::replay(&args),
+        ("drive", "ods") => props::ods::drive(&args),
         _ => {
             eprintln!("unknown command {} {}", args.cmd, args.sub);
             2
